@@ -874,3 +874,117 @@ class ModuleInterp(Interp):
                 continue   # docstring / #: comment strings
             self.stmt(s, None, globs, None)
         return globs
+
+
+# ----------------------------------------------------------------------
+# interpreted classes
+
+def _method_kind(fn):
+    kinds = {txt(d).split(".")[-1] for d in fn.decorator_list}
+    for k in ("staticmethod", "classmethod", "property"):
+        if k in kinds:
+            return k
+    if any(k.endswith(("setter", "deleter")) for k in kinds):
+        return "other"
+    return "plain"
+
+
+class ClassModel(Namespace):
+    """Stand-in for a class of the repository whose methods are interpreted:
+    ``Cls.helper(...)`` (static / class / plain methods) resolves to the
+    interpreted function, ``Cls(...)`` creates an InstanceModel and runs the
+    interpreted ``__init__`` (or `ctor` if given)."""
+    model_callable = True
+
+    def __init__(self, node, globs, interp, ctor=None, **attrs):
+        super().__init__(node.name, **attrs)
+        self._node = node
+        self._globs = globs
+        self._interp = interp
+        self._ctor = ctor
+        self._methods = {f.name: f for f in node.body
+                         if isinstance(f, ast.FunctionDef)}
+
+    def _resolve(self, attr, inst=None):
+        fn = self._methods.get(attr)
+        if fn is None:
+            return None
+        kind = _method_kind(fn)
+        func = Func(fn, self._globs, self._interp)
+        if kind == "staticmethod":
+            return func
+        if kind == "classmethod":
+            return _bind(func, self)
+        if kind == "property":
+            if inst is None:
+                raise AnalysisError(
+                    f"model: property {self._name}.{attr} read on the class")
+            return _Value(func(inst))
+        if kind == "other":
+            raise AnalysisError(f"model: decorator of {self._name}.{attr}")
+        return func if inst is None else _bind(func, inst)
+
+    def model_getattr(self, attr):
+        if attr in self.__dict__ and not attr.startswith("_") or \
+                attr == "__dict__" and "__dict__" in self.__dict__:
+            return self.__dict__[attr]
+        if attr == "__name__":
+            return self._name
+        r = self._resolve(attr)
+        if r is None:
+            raise AnalysisError(
+                f"model: {self._name}.{attr} is not a method of the class")
+        return r.v if isinstance(r, _Value) else r
+
+    def instance(self, **attrs):
+        return InstanceModel(self, **attrs)
+
+    def __call__(self, *a, **k):
+        if self._ctor is not None:
+            return self._ctor(*a, **k)
+        inst = InstanceModel(self)
+        init = self._methods.get("__init__")
+        if init is not None:
+            Func(init, self._globs, self._interp)(inst, *a, **k)
+        elif a or k:
+            raise ModelRaise("TypeError", f"{self._name}() takes no "
+                                          "arguments")
+        return inst
+
+
+class _Value:
+    def __init__(self, v):
+        self.v = v
+
+
+def _bind(func, first):
+    def bound(*a, **k):
+        return func(first, *a, **k)
+    bound.model_callable = True
+    bound.__name__ = getattr(func, "__name__", "bound")
+    return bound
+
+
+class InstanceModel(Namespace):
+    """instance of a ClassModel: own attributes first, then the interpreted
+    methods / properties of the class"""
+
+    def __init__(self, cls, **attrs):
+        super().__init__(f"{cls._name} instance", **attrs)
+        self.__dict__["_cls"] = cls
+
+    def model_getattr(self, attr):
+        if attr in self.__dict__ and attr != "_cls":
+            return self.__dict__[attr]
+        if attr == "__class__":
+            return self.__dict__["_cls"]
+        r = self.__dict__["_cls"]._resolve(attr, inst=self)
+        if r is None:
+            if self.__dict__["_cls"].__dict__.get("strict_instances"):
+                raise AnalysisError(
+                    f"model: {self._name} attribute `{attr}` is not "
+                    "modelled")
+            raise ModelRaise(
+                "AttributeError",
+                f"{self._name} has no attribute {attr}")
+        return r.v if isinstance(r, _Value) else r
